@@ -164,10 +164,18 @@ class LrParser:
                     ret_val = param.f(*f_args)
                 else:
                     ret_val = None
-                # Break out!
+                if stack == [0]:
+                    # The whole input is reduced to the start symbol.
+                    # Break out!
+                    stack.append(param.name)
+                    stack.append(0)
+                    break
+                # The start symbol is used inside a production (for
+                # example start -> 'a' start), this is a normal reduce:
+                state = stack[-1]
                 stack.append(param.name)
-                stack.append(0)
-                break
+                stack.append(self.goto_table[(state, param.name)])
+                r_data_stack.append(ret_val)
         # At exit, the stack must be 1 long
         # TODO: fix that this holds:
         # assert stack == [0, self.grammar.start_symbol, 0]
